@@ -75,7 +75,12 @@ pub fn worker(tier: &str, seed: u64, from: u64, to: u64, extra: &[String]) -> Ag
     let thorough = tier == "thorough";
     let mut agg = Agg::default();
     let progress_file = std::env::var("VERIF_WORKER_OUT").unwrap_or_default();
-    for i in from..to {
+    let stride = runner::stride_of(extra);
+    let mut i = from;
+    while i < to {
+        let this_i = i;
+        i += stride;
+        let i = this_i;
         if !progress_file.is_empty() {
             runner::note_progress(&progress_file, i);
         }
